@@ -18,7 +18,7 @@ LEVEL = "exploration"
 PROP = "C10"
 GROUPS = ["sim", "simtrace"]
 BUDGET = {"quick": 200, "thorough": 2400}
-CASE_TIMEOUT = 1500
+CASE_TIMEOUT = int(os.environ.get("VERIF_CASE_TIMEOUT", "420"))
 TEAMS = [2, 3, 4, 5, 7, 8, 13, 16, 17, 32, 61]
 TEAM_W = [6, 5, 6, 3, 4, 5, 2, 4, 2, 2, 1]
 STRATS = ["random", "rtc_perm", "round_robin", "starve_one", "greedy_one", "reverse", "rtc_id"]
@@ -209,6 +209,7 @@ def run_workload(wl, wp, sched, record=False, replay=None):
         preempt_mean=sched.get("preempt_mean", 0),
         window_pct=sched.get("window_pct", 100),
         poison=sched["poison"],
+        window_fn=sched.get("window_fn", 0),
         record=record,
         max_steps=MAX_STEPS,
         replay=replay,
@@ -227,7 +228,115 @@ def run_workload(wl, wp, sched, record=False, replay=None):
 REF_SCHED = {"nthreads": 1, "strategy": "rtc_id", "chunk_shuffle": 0, "poison": 0xA5, "sseed": 1, "preempt_mean": 0, "window_pct": 100}
 
 
+def minimise_trace_case(spec):
+    """Runs inside one worker: shrink a failing schedule trace while the same violation
+    key persists.  Replay tolerates edited traces (when the trace runs out, or names a
+    thread that cannot run, the lowest runnable thread runs to completion), so every
+    candidate is executable; a candidate is kept iff the key is still observed."""
+    import time
+
+    wl, wp, sched, key = spec["workload"], spec["wparams"], spec["scheds"][0], spec["key"]
+    name = key.split(":")[2]
+    cls = key.split(":")[3]
+    ref, st0, exc0, _ = run_workload(wl, wp, dict(REF_SCHED))
+    t0 = time.time()
+    attempts = [0]
+
+    def fails(segs, chunks):
+        attempts[0] += 1
+        out, st, exc, _ = run_workload(wl, wp, sched, replay={"segs": segs, "chunks": chunks})
+        if st["error"] or exc is not None:
+            return cls in ("deadlock", "heap-overrun", "exception") and (st["error"] or "exception").replace("_", "-") .startswith(cls[:4])
+        bad, _ = compare(ref, out)
+        return any((n == name or name == "*") and c == cls for n, c, _ in bad)
+
+    segs = [list(x) for x in spec["trace"]["segs"]]
+    chunks = list(spec["trace"].get("chunks", []))
+    if not fails(segs, chunks):
+        return {"ok": False, "reason": "recorded trace does not reproduce", "attempts": attempts[0]}
+    n0 = len(segs)
+    budget_s = spec.get("budget_s", 150)
+    # 0. sparse trace: keep only the regions that were pre-empted (regions without recorded
+    #    segments run in thread-id order on replay), then drop regions one block at a time
+    def regions_of(sg):
+        regs, cur = [], None
+        for x in sg:
+            if x[0] < 0:
+                cur = [x]
+                regs.append(cur)
+            elif cur is not None:
+                cur.append(x)
+        return regs
+
+    regs = regions_of(segs)
+    cand = [x for r in regs if r[0][0] == -2 for x in r]
+    if cand and len(cand) < len(segs) and fails(cand, chunks):
+        segs = cand
+    regs = regions_of(segs)
+    b = max(1, len(regs) // 2)
+    while b >= 1 and len(regs) > 1 and time.time() - t0 < budget_s * 0.5 and attempts[0] < 200:
+        i = 0
+        changed = False
+        while i < len(regs) and len(regs) > 1 and time.time() - t0 < budget_s * 0.5 and attempts[0] < 200:
+            cand_regs = regs[:i] + regs[i + b :]
+            if cand_regs and fails([x for r in cand_regs for x in r], chunks):
+                regs = cand_regs
+                changed = True
+            else:
+                i += b
+        if b == 1 and not changed:
+            break
+        b = b // 2 if b > 1 else (1 if changed else 0)
+    segs = [x for r in regs for x in r]
+    # 1. shortest failing prefix
+    lo, hi = 0, len(segs)
+    while hi - lo > 1 and time.time() - t0 < budget_s:
+        mid = (lo + hi) // 2
+        if fails(segs[:mid], chunks):
+            hi = mid
+        else:
+            lo = mid
+    segs = segs[:hi]
+    # 2. merge blocks of segments (region markers stay)
+    b = max(1, len(segs) // 2)
+    while b >= 1 and time.time() - t0 < budget_s and attempts[0] < 400:
+        i = 0
+        changed = False
+        while i < len(segs) and time.time() - t0 < budget_s and attempts[0] < 400:
+            blk = [k for k in range(i, min(len(segs), i + b)) if segs[k][0] >= 0]
+            if len(blk) < 2 or blk[-1] - blk[0] + 1 != len(blk):
+                i += b
+                continue
+            # merge the block: every thread runs its steps of the block in one piece (this
+            # drops pre-emptions but keeps each thread's position for the rest of the trace)
+            tot, order = {}, []
+            for k in blk:
+                t_, n_ = segs[k]
+                if t_ not in tot:
+                    tot[t_] = 0
+                    order.append(t_)
+                tot[t_] += n_
+            merged = [[t_, tot[t_]] for t_ in order]
+            if len(merged) >= len(blk):
+                i += b
+                continue
+            cand = segs[: blk[0]] + merged + segs[blk[-1] + 1 :]
+            if fails(cand, chunks):
+                segs = cand
+                changed = True
+            else:
+                i += b
+        if b == 1 and not changed:
+            break
+        b = b // 2 if b > 1 else (1 if changed else 0)
+    if chunks and fails(segs, []):
+        chunks = []
+    return {"ok": True, "segs": segs, "chunks": chunks, "from_segments": n0, "attempts": attempts[0], "wall_s": round(time.time() - t0, 1)}
+
+
 def run_case(spec):
+    if spec.get("_mintrace"):
+        return minimise_trace_case(spec)
     wl, wp = spec["workload"], spec["wparams"]
     _sim.reset_regions()
     dg = Digest()
@@ -319,21 +428,17 @@ def replay(rp):
 
 
 def on_crash(spec, status):
-    """worker died inside a case: a violation iff the one-thread reference survives"""
+    """worker died (or hung until the per-case timeout) inside a case: a violation iff the
+    one-thread reference of the same workload instance completes"""
     from cidersim.driver import run_pool
 
     ref_only = dict(spec, scheds=[])
     r = run_pool([ref_only], run_case, nproc=1, case_timeout=CASE_TIMEOUT, init=lambda: init_group(spec["group"]))[0]
     if r is None or "crashed" in r or "harness_error" in r:
         return None
-    # find the schedule that kills it
-    for s in spec["scheds"]:
-        one = dict(spec, scheds=[s])
-        r = run_pool([one], run_case, nproc=1, case_timeout=CASE_TIMEOUT, init=lambda: init_group(spec["group"]))[0]
-        if r is not None and "crashed" in r:
-            rp = {"property": PROP, "engine": "simgomp", "case": one, "violation": {"key": "schedule:%s:*:crash" % spec["workload"]}}
-            return {"key": "schedule:%s:*:crash" % spec["workload"], "detail": "process died (wait status %s) under sched=%s while the one-thread run completes" % (r["crashed"], json.dumps(s)), "replay": rp}
-    return None
+    key = "schedule:%s:*:crash" % spec["workload"]
+    rp = {"property": PROP, "engine": "simgomp", "case": spec, "violation": {"key": key}}
+    return {"key": key, "detail": "process died or hung (wait status %s) under one of scheds=%s while the one-thread run completes" % (status, json.dumps(spec["scheds"])[:300]), "replay": rp}
 
 
 def minimise(v):
@@ -361,7 +466,6 @@ def minimise(v):
         ("preempt_mean", [0, 10000, 1000, 100]),
         ("strategy", ["rtc_id", "reverse", "round_robin"]),
         ("poison", [0]),
-        ("window_pct", [100]),
     ):
         for c in cands:
             if sched.get(field) == c or tried > 14:
@@ -370,6 +474,19 @@ def minimise(v):
                 continue
             s2 = dict(sched)
             s2[field] = c
+            tried += 1
+            if fails(s2):
+                sched = s2
+                break
+    # which region function must be pre-empted?  (restricting the window to one function
+    # names the culprit and keeps the schedule trace small)
+    if sched.get("preempt_mean", 0) > 0:
+        r0 = fails(sched)
+        regs = sorted((r0 or {}).get("regions", {}).items())
+        for name, info in regs:
+            if tried > 40 or not info.get("off") or info.get("runs_multi", 0) == 0:
+                continue
+            s2 = dict(sched, window_fn=info["off"], window_fn_name=name)
             tried += 1
             if fails(s2):
                 sched = s2
@@ -386,6 +503,19 @@ def minimise(v):
                 if "trace" in x["replay"]:
                     rp["trace"] = x["replay"]["trace"]
                 break
+    if "trace" in rp and not key.endswith(":crash") and len(rp["trace"]["segs"]) <= 300000:
+        m = run_pool(
+            [dict(case, scheds=[sched], _mintrace=True, key=key, trace=rp["trace"], budget_s=150)],
+            run_case,
+            nproc=1,
+            case_timeout=CASE_TIMEOUT,
+            init=lambda: init_group(g),
+        )[0]
+        if m and m.get("ok"):
+            rp["trace"] = {"segs": m["segs"], "chunks": m["chunks"]}
+            rp["trace_minimised"] = {"from_segments": m["from_segments"], "to_segments": len(m["segs"]), "attempts": m["attempts"], "wall_s": m["wall_s"]}
+        elif m:
+            rp["trace_minimised"] = m
     rp["violation"] = {"key": key, "detail": out.get("detail")}
     out["replay"] = rp
     return out
@@ -404,6 +534,7 @@ def coverage(done, tier):
         wl_runs[spec["workload"] + "/" + spec["group"]] += len(spec["scheds"])
         for name, r in res.get("regions", {}).items():
             e = regs.setdefault(name, {"runs": 0, "runs_multi": 0, "max_team": 0})
+            r = {k: r.get(k, 0) for k in ("runs", "runs_multi", "max_team")}
             e["runs"] += r["runs"]
             e["runs_multi"] += r["runs_multi"]
             e["max_team"] = max(e["max_team"], r["max_team"])
